@@ -38,6 +38,14 @@ MANIFEST = {
             "dispatcher on programs plain torch accepts are reported. A second facet checks the explicit batch builders "
             "(from_images, append, batch(), iteration, collate_samples) on such grid plans, and that flow fields with different "
             "vector axes are never merged (append, from_images, cat, collate) into one batch under a single axes label. "
+            "Copies of views: the wrapped data is, in half of the random cases and in 10 survey objects, itself a view of a "
+            "larger buffer (contiguous at a non-zero storage offset, strided, transposed memory, cropped; optionally an autograd "
+            "leaf with requires_grad), and every survey op whose plain-torch result is a view of its input (all indexing forms, "
+            "narrow/select, split chunks, iteration items, transpose-like ops, expand, detach, ...) is followed by every copy-like "
+            "call form (copy.copy, _make_instance, deepcopy and pickle - each protocol 2..5, torch.save - alone, inside a "
+            "container, of the same object twice, of all entries of the batch together; clone/contiguous/detach/to/type): the "
+            "copy must have the type, values (equal to the plain twin), grids, axes and requires_grad flag of its input, be a "
+            "new object, and deep copies / pickles / clones must own their storage. "
             "Exploration, no proof: a deterministic survey of every call form plus random programs.",
     "note": "Trusted: plain torch semantics of the same calls on torch.Tensor (the shadow), the closed-form item grids "
             "(geometry k: center 100*k+10*a, spacing 1+k/2+a/4, optional x-y rotation by 0.2+0.1*k rad; float32-exact values) "
@@ -52,7 +60,8 @@ ASSUMPTIONS = [
     "a result that is a plain torch.Tensor is always acceptable (the property only speaks about results that are again "
     "one of the four deepali types)",
     "entries whose data mixes several input items (sum over dim 0, transpose(0,1) with N == C, x + other batch) have no "
-    "single owner; only grid count and shape are checked for them",
+    "single owner; only grid count and shape are checked for them and for anything a later op cuts out of them (e.g. the "
+    "channels split off a channel-wise cat of two images with different grids, which carries the first operand's grid)",
     "ImageBatch.narrow / Image.narrow along a spatial dimension are expected to narrow every item's own grid",
     "deepcopy / pickle / clone must not share Grid objects or grid attribute storage with the input; copy.copy may share; "
     "whether entries of the result share Grid objects among each other is not constrained",
@@ -61,6 +70,16 @@ ASSUMPTIONS = [
     "ImageBatch.grids() returns a tuple (its documented return type, which append() relies on)",
     "merging flow fields with different axes must either be rejected (ValueError) or not yield a flow-field result that "
     "holds an item's unchanged vectors under another axes label; combining FlowFields with ImageBatch operands is not judged",
+    "copy.copy / _make_instance / deepcopy / pickle / clone hand on the requires_grad flag of their input (what the same call "
+    "does for a plain tensor and what __deepcopy__ / __reduce_ex__ pass on explicitly); whether the copy is an autograd leaf, "
+    "its strides, and the size of the pickle (the whole parent storage of a view may be written) are not constrained; "
+    "clone keeps the autograd history exactly when plain torch does",
+    "a copy (copy.copy, deepcopy, pickle) is a new object, and copying [x, x] yields the same copy twice (contract of the "
+    "copy / pickle memo); copies of several views of one storage are only required to hold the right values each (torch "
+    "would also preserve the sharing between them; deepali does not for deepcopy, which is not judged)",
+    "the plain twin has the same memory layout (offset, strides) and autograd flag as the wrapped data, so a program plain "
+    "torch rejects for layout / autograd reasons (view of a non-contiguous tensor, in-place on a leaf that requires grad, "
+    "deepcopy of a non-leaf) is outside the domain (skipped), one it accepts must work on the deepali object",
 ]
 
 KNOWN = Known(PROPERTY)
@@ -68,6 +87,7 @@ K1_ACTIVE = KNOWN.active("K1")
 K2_ACTIVE = KNOWN.active("K2")
 K7_ACTIVE = KNOWN.active("K7")
 K1_OPS = ("flip", "roll", "index_select", "take_along_dim", "gather")
+COPY_OPS = ("copy", "deepcopy", "pickle", "make_instance")
 
 BATCH_KINDS = ("ImageBatch", "FlowFields")
 IMAGE_KINDS = ("Image", "FlowField")
@@ -278,27 +298,75 @@ class Obj:
         self.real, self.plain, self.lo, self.hi = real, plain, lo, hi
 
 
-def make_obj(kind: str, ids, C: int, shape, dtype, pool: GridPool, axes: Optional[str], off: float = 0.0) -> Obj:
+LAYOUTS = ("dense", "offset", "strided", "tposed", "crop")
+
+
+def apply_layout(dense: torch.Tensor, layout: Optional[str]) -> torch.Tensor:
+    """A tensor with the values of `dense` (fresh storage) whose memory layout is that of a view of a larger tensor.
+
+    dense:   own contiguous storage (offset 0);
+    offset:  CONTIGUOUS view at a non-zero storage offset (as a sub-batch / batch item / split chunk of a larger batch);
+    strided: every second entry along dim 0 of a buffer of twice the length (offset and stride, non-contiguous);
+    tposed:  memory order of the dimensions reversed (offset 0, non-standard strides, dense);
+    crop:    interior of a buffer padded by one sample at both ends of the last dimension (offset, gaps).
+    The surrounding buffer elements hold sentinel values (<= -1000) that no item holds."""
+    if layout in (None, "dense"):
+        return dense.clone(memory_format=torch.contiguous_format)
+
+    def sentinel(shape):
+        n = int(np.prod(shape)) if len(shape) else 1
+        return (-1000.0 - torch.arange(n, dtype=torch.float64)).reshape(tuple(shape)).to(dense.dtype)
+
+    if layout == "offset":
+        n, front = dense.numel(), dense.numel() + 3
+        buf = sentinel((front + n + 2,))
+        view = buf[front:front + n].view(dense.shape)
+    elif layout == "strided":
+        buf = sentinel((2 * dense.shape[0] + 1,) + tuple(dense.shape[1:]))
+        view = buf[1::2][:dense.shape[0]]
+    elif layout == "tposed":
+        perm = list(range(dense.ndim))[::-1]
+        return dense.permute(perm).contiguous().permute(perm)
+    elif layout == "crop":
+        buf = sentinel(tuple(dense.shape[:-1]) + (dense.shape[-1] + 2,))
+        view = buf[..., 1:-1]
+    else:
+        raise ValueError(layout)
+    view.copy_(dense)
+    return view
+
+
+def make_obj(kind: str, ids, C: int, shape, dtype, pool: GridPool, axes: Optional[str], off: float = 0.0,
+             layout: Optional[str] = None, rg: bool = False) -> Obj:
+    """The deepali object and its plain twin hold equal values in separate storages of the same memory layout; with
+    rg both are autograd leaves with requires_grad=True."""
     from deepali.core import Axes
     from deepali.data import FlowField, FlowFields, Image, ImageBatch
 
     shape = tuple(shape)
+    kw = {"requires_grad": True} if rg else {}
     if kind in BATCH_KINDS:
         data = torch.stack([item_data(j, C, shape, dtype, off) for j in ids], 0)
         grids = [pool.grid(j) for j in ids]
         sh = torch.tensor([float(j) for j in ids], dtype=torch.float64).reshape((len(ids),) + (1,) * (len(shape) + 1))
         sh = sh.expand(data.shape).clone()
         if kind == "ImageBatch":
-            real = ImageBatch(data.clone(), grids)
+            real = ImageBatch(apply_layout(data, layout), grids, **kw)
         else:
-            real = FlowFields(data.clone(), grids, Axes(axes))
+            real = FlowFields(apply_layout(data, layout), grids, Axes(axes), **kw)
     else:
         j = ids[0]
         data = item_data(j, C, shape, dtype, off)
         grid = pool.grid(j)
         sh = torch.full(data.shape, float(j), dtype=torch.float64)
-        real = Image(data.clone(), grid) if kind == "Image" else FlowField(data.clone(), grid, Axes(axes))
-    return Obj(real, data, sh, sh.clone())
+        if kind == "Image":
+            real = Image(apply_layout(data, layout), grid, **kw)
+        else:
+            real = FlowField(apply_layout(data, layout), grid, Axes(axes), **kw)
+    plain = apply_layout(data, layout)
+    if rg:
+        plain = plain.detach().requires_grad_(True)
+    return Obj(real, plain, sh, sh.clone())
 
 
 def aux(shape, dtype=torch.float32) -> torch.Tensor:
@@ -391,6 +459,7 @@ BINARY = {
     "maximum": lambda a, b: torch.maximum(a, b), "madd": lambda a, b: a.add(b), "tadd": lambda a, b: torch.add(a, b, alpha=2),
 }
 ID_OPERANDS = ("self", "twin", "other")
+PICKLE_PROTOS = ("proto2", "proto3", "proto4", "proto5")
 
 
 def _operand(name: str, t, E, state_batch: bool):
@@ -600,20 +669,32 @@ def interpret(op: dict, D: int):
         return "same", call, []
     if o == "copy":
         return "same", (lambda t, E: copy.copy(t)), []
-    if o == "deepcopy":
-        if op.get("via") == "list":  # deep copy of a container holding the object (memo passed down)
-            return "same", (lambda t, E: copy.deepcopy([t, 1])[0]), []
-        return "same", (lambda t, E: copy.deepcopy(t)), []
-    if o == "pickle":
+    if o == "make_instance":  # the subclass-preserving constructor behind __copy__ (a plain tensor has none: itself)
+        return "same", (lambda t, E: t._make_instance() if hasattr(t, "_make_instance") else t), []
+    if o in ("deepcopy", "pickle"):
         via = op.get("via")
 
-        def call(t, E):
+        def dup(obj):
+            if o == "deepcopy":
+                return copy.deepcopy(obj)
             if via == "torch_save":
                 buf = io.BytesIO()
-                torch.save(t, buf)
+                torch.save(obj, buf)
                 buf.seek(0)
                 return torch.load(buf, weights_only=False)
-            return pickle.loads(pickle.dumps(t, protocol=2 if via == "proto2" else pickle.DEFAULT_PROTOCOL))
+            proto = int(via[5:]) if via in PICKLE_PROTOS else pickle.DEFAULT_PROTOCOL
+            return pickle.loads(pickle.dumps(obj, protocol=proto))
+
+        def call(t, E):
+            if via == "list":  # copy of a container holding the object (memo passed down)
+                return dup([t, 1])[0]
+            if via == "pair":  # the same object twice: [copy, the same copy] (memo of deepcopy / pickle)
+                return dup([t, t])
+            if via == "items":  # the entries along dim 0: views of ONE storage at different offsets, copied together
+                return dup([t[i] for i in range(t.shape[0])])
+            if via == "chunks":  # the same as sub-batches of one entry each
+                return dup([t[i:i + 1] for i in range(t.shape[0])])
+            return dup(t)
 
         return "same", call, []
     if o == "batch":
@@ -770,6 +851,24 @@ def entry_owner(lo: torch.Tensor, hi: torch.Tensor):
     return int(round(a))
 
 
+def taint_mixed(x, lo: torch.Tensor, hi: torch.Tensor):
+    """An entry that mixes data of several items has no owner, and neither has anything later cut out of it: the grid it
+    was given (e.g. that of the first operand of a channel-wise cat of two images) is all it can hand on."""
+    kind = dtype_of(x)
+    if kind is None:
+        return lo, hi
+    if kind in IMAGE_KINDS:
+        if entry_owner(lo, hi) == "mixed":
+            return torch.full_like(lo, NAN), torch.full_like(hi, NAN)
+        return lo, hi
+    mixed = [i for i in range(lo.shape[0]) if entry_owner(lo[i], hi[i]) == "mixed"]
+    if mixed:
+        lo, hi = lo.clone(), hi.clone()
+        for i in mixed:
+            lo[i], hi[i] = NAN, NAN
+    return lo, hi
+
+
 def dtype_of(real):
     from deepali.data import FlowField, FlowFields, Image, ImageBatch
 
@@ -849,10 +948,25 @@ def check_result(stt: State, r, pr, lo, hi, name: str, sfx: str, flow_in: bool):
     return kind
 
 
-def check_copy(stt: State, x, r, name: str):
-    """copy / deepcopy / pickle preserve type (and axes, grids, data: checked by check_result)."""
-    if type(r) is not type(x):
+def check_copy(stt: State, x, r, name: str, type_too: bool = True):
+    """copy / deepcopy / pickle / _make_instance preserve type (and axes, grids, data: checked by check_result); these and
+    clone hand on the requires_grad flag of their input (as they do for a plain tensor)."""
+    if type_too and type(r) is not type(x):
         raise Violation(f"copy_type:{name}", f"{name} of {type(x).__name__} returned {type(r).__name__}")
+    if isinstance(r, torch.Tensor) and isinstance(x, torch.Tensor) and r.requires_grad != x.requires_grad:
+        raise Violation(f"requires_grad:{name}", f"{name} of a {type(x).__name__} with requires_grad={x.requires_grad} has requires_grad={r.requires_grad}")
+
+
+def view_class(t: torch.Tensor) -> str:
+    """Memory layout of a tensor: dense (owns its whole storage, contiguous), offset_view (contiguous part of a larger
+    storage at offset > 0), head_view (contiguous part at offset 0), strided_view (anything non-contiguous)."""
+    if not t.is_contiguous():
+        return "strided_view"
+    if t.storage_offset() != 0:
+        return "offset_view"
+    if t.untyped_storage().nbytes() != t.numel() * t.element_size():
+        return "head_view"
+    return "dense"
 
 
 def check_independent(x, r, name: str):
@@ -868,7 +982,7 @@ def check_independent(x, r, name: str):
     for a in gr:  # (Grid.center() etc. return the stored tensors: shared storage lets an in-place edit of one reach the other)
         if any(t.data_ptr() in ptrs for t in (a.center(), a.spacing(), a.direction())):
             raise Violation(f"shared_grid_storage:{name}", f"{name} result has a Grid whose attribute tensors share storage with a Grid of its input")
-    if r.numel() and r.data_ptr() == x.data_ptr():
+    if r.numel() and (r.data_ptr() == x.data_ptr() or r.untyped_storage().data_ptr() == x.untyped_storage().data_ptr()):
         raise Violation(f"shared_data:{name}", f"{name} result shares storage with its input")
 
 
@@ -892,7 +1006,8 @@ def initial_objects(case) -> Tuple[Obj, Dict[str, Obj], Dict[int, dict]]:
         if sorted(G) != ids + oids:
             raise ValueError("grid plan does not match the items of the case")
     pool = GridPool(G, root)  # main and 'other' may hold the very same Grid objects, the twin holds equal-valued ones
-    main = make_obj(kind, ids, C, shape, dt, pool, axes)
+    init = case.get("init") or {}
+    main = make_obj(kind, ids, C, shape, dt, pool, axes, layout=init.get("layout"), rg=bool(init.get("rg")))
     others = {"twin": make_obj(kind, ids, C, shape, dt, GridPool(G, root), axes, off=0.5),
               "other": make_obj(kind, oids, C, shape, dt, pool, axes, off=0.25)}
     return main, others, G
@@ -910,7 +1025,7 @@ def run_program(case, collect=None):
     main, others, G = initial_objects(case)
     stt.G = G
     D = stt.D
-    x, p, lo, hi = main.real, main.plain.clone(), main.lo, main.hi
+    x, p, lo, hi = main.real, main.plain, main.lo, main.hi  # (make_obj built the twin in its own storage)
     others_plain = {n: Obj(o.real, o.plain.clone(), o.lo, o.hi) for n, o in others.items()}
     flow_in = case["kind"] in ("FlowFields", "FlowField")
     nsteps = 0
@@ -943,6 +1058,14 @@ def run_program(case, collect=None):
         shapes = [tuple(t.shape) for t in (pouts if pouts is not None else [pr])]
         if cat == "struct":
             lor, hir = call(lo, Elo), call(hi, Ehi)
+        elif cat == "same" and pouts is not None:  # copies of [x, x] / of the entries of x along dim 0
+            n = lo.shape[0]
+            if op.get("via") == "items":
+                lor, hir = list(lo), list(hi)
+            elif op.get("via") == "chunks":
+                lor, hir = [lo[i:i + 1] for i in range(n)], [hi[i:i + 1] for i in range(n)]
+            else:
+                lor, hir = [lo] * len(pouts), [hi] * len(pouts)
         elif cat == "same":
             lor, hir = lo, hi
         elif cat == "elem":
@@ -979,10 +1102,28 @@ def run_program(case, collect=None):
         kinds = []
         for i in range(len(rl)):
             kinds.append(guarded(lambda i=i: check_result(stt, rl[i], pl[i], ll[i], hl[i], name, sfx, flow_in), name))
-        if op["op"] in ("copy", "deepcopy", "pickle"):
-            check_copy(stt, x, r, name)
-        if op["op"] in ("deepcopy", "pickle") or (op["op"] == "cast" and op["fn"] in ("clone", "torch_clone")):
-            check_independent(x, r, name)
+        is_clone = op["op"] == "cast" and op["fn"] in ("clone", "torch_clone")
+        if op["op"] in COPY_OPS or is_clone:
+            via = op.get("via")
+            if via == "items":  # the inputs of the copies are the entries of x
+                srcs = guarded(lambda: [x[i] for i in range(x.shape[0])], name)
+            elif via == "chunks":
+                srcs = guarded(lambda: [x[i:i + 1] for i in range(x.shape[0])], name)
+            else:
+                srcs = [x] * len(rl)
+            if via == "pair" and rl[0] is not rl[1]:  # (the memo of copy.deepcopy / pickle: one object, one copy)
+                raise Violation(f"copy_memo:{name}", f"{name} of [x, x] returned two different objects")
+            for xi, ri, pi in zip(srcs, rl, pl):
+                if ri is xi:  # (a copy is a new object: attributes set on it, e.g. grid_(), must not reach the original)
+                    raise Violation(f"copy_identity:{name}", f"{name} returned its input object")
+                check_copy(stt, xi, ri, name, type_too=not is_clone)
+                if is_clone and (ri.grad_fn is None) != (pi.grad_fn is None):
+                    raise Violation(f"autograd_history:{name}", f"{name}: grad_fn is {type(ri.grad_fn).__name__}, of the plain tensor {type(pi.grad_fn).__name__}")
+                if op["op"] in ("deepcopy", "pickle") or is_clone:
+                    check_independent(xi, ri, name)
+            stt.labels.append(f"copy_of={view_class(x)}")
+            if view_class(x) == "offset_view" and kinds and kinds[0] != "Tensor":
+                stt.labels.append(f"{op['op']}_of_offset_view")
         nsteps += 1
         stt.labels.append(f"op={name}")
         stt.labels.append(f"{cur_kind}.{op['op']}->{'+'.join(sorted(set(kinds))) if kinds else 'none'}")
@@ -994,9 +1135,11 @@ def run_program(case, collect=None):
             break
         j = op.get("pick", 0) % len(rl)
         x, p, lo, hi = rl[j], pl[j], ll[j], hl[j]
+        lo, hi = taint_mixed(x, lo, hi)
     info = {"nontrivial": stt.nt and case.get("N", 1) >= 2,
             "labels": stt.labels + [f"kind={case['kind']}", f"N={case.get('N', 1)}", f"D={D}", f"steps={nsteps}"]
             + ([f"excluded_known:{e}" for e in case.get("excluded", [])]) + (["mixed_entries"] if stt.mixed else [])
+            + [f"init={(case.get('init') or {}).get('layout') or 'dense'}"] + (["init:requires_grad"] if (case.get("init") or {}).get("rg") else [])
             + plan_labels(case.get("gplan"), case.get("N", 1))}
     return info
 
@@ -1300,12 +1443,21 @@ def gen_cast(draw, s, batch):
     return {"op": "cast", "fn": fn, "dtype": draw(st.sampled_from(["float32", "float64", "int64"]))}
 
 
+DEEPCOPY_VIAS = (None, "list", "pair", "items", "chunks")
+PICKLE_VIAS = (None,) + PICKLE_PROTOS + ("torch_save", "list", "pair", "items", "chunks")
+CASTCOPY_FNS = ("clone", "torch_clone", "contiguous", "detach", "to", "to_kw", "type", "cpu")
+
+
 def gen_copy(draw, s, batch):
-    o = draw(st.sampled_from(["copy", "deepcopy", "deepcopy", "pickle", "pickle"]))
+    """Copy-like ops: copy.copy, _make_instance, copy.deepcopy (alone, in a container, twice, of the entries), pickle (every
+    protocol, torch.save, in a container, twice, of the entries) and the tensor methods that return a copy or an alias."""
+    o = draw(st.sampled_from(["copy", "make_instance", "deepcopy", "deepcopy", "pickle", "pickle", "pickle", "castcopy"]))
     if o == "deepcopy":
-        return {"op": o, "via": draw(st.sampled_from([None, None, "list"]))}
+        return {"op": o, "via": draw(st.sampled_from((None,) + DEEPCOPY_VIAS)), "pick": draw(_ints(0, 3))}
     if o == "pickle":
-        return {"op": o, "via": draw(st.sampled_from([None, None, "proto2", "torch_save"]))}
+        return {"op": o, "via": draw(st.sampled_from((None,) + PICKLE_VIAS)), "pick": draw(_ints(0, 3))}
+    if o == "castcopy":
+        return {"op": "cast", "fn": draw(st.sampled_from(CASTCOPY_FNS)), "dtype": draw(st.sampled_from(["float32", "float64", "int64"]))}
     return {"op": o}
 
 
@@ -1326,8 +1478,9 @@ FAMILIES_IMAGE = (["getitem"] * 3 + ["narrowsel"] * 2 + ["catstack"] + ["split"]
                   + ["reduce"] + ["cast"] * 2 + ["copy"] * 3 + ["batch"] * 3)
 
 
-def gen_op(draw, s, batch: bool, base_shape):
-    fam = draw(st.sampled_from(FAMILIES_BATCH if batch else FAMILIES_IMAGE))
+def gen_op(draw, s, batch: bool, base_shape, fam: Optional[str] = None):
+    if fam is None:
+        fam = draw(st.sampled_from(FAMILIES_BATCH if batch else FAMILIES_IMAGE))
     if fam == "getitem":
         return gen_getitem(draw, s, batch)
     if fam == "narrowsel":
@@ -1407,25 +1560,36 @@ def program_cases(draw):
         case["gplan"] = draw_plan(draw, 2, D, base=case["id"])
     if flow:
         case["axes"] = draw(st.sampled_from(["world", "grid", "cube", "cube_corners"]))
+    # memory layout of the wrapped data: its own storage, or a view (offset / strides / gaps) of a larger buffer
+    layout = draw(st.sampled_from(["dense"] * 5 + ["offset"] * 2 + ["strided", "tposed", "crop"]))
+    rg = draw(st.sampled_from([False] * 5 + [True]))
+    if layout != "dense" or rg:
+        case["init"] = {"layout": layout, "rg": rg}
     dt = _dt(case["dtype"])
     ids = list(range(case["N"])) if batch else [case["id"]]
     if batch:
-        p = torch.stack([item_data(j, case["C"], tuple(shape), dt) for j in ids], 0)
+        dense = torch.stack([item_data(j, case["C"], tuple(shape), dt) for j in ids], 0)
         oth = torch.stack([item_data(j, case["C"], tuple(shape), dt, 0.25) for j in range(case["N"], case["N"] + case["M"])], 0)
     else:
-        p = item_data(ids[0], case["C"], tuple(shape), dt)
+        dense = item_data(ids[0], case["C"], tuple(shape), dt)
         oth = item_data(ids[0] + 1, case["C"], tuple(shape), dt, 0.25)
+    p = apply_layout(dense, layout)  # the tracker has the layout (and autograd flag) of the object: same ops are valid
+    if rg:
+        p = p.detach().requires_grad_(True)
     base_shape = tuple(p.shape)
-    env = {"twin": p + 0.5, "other": oth, "plain": aux(base_shape, dt)}
+    env = {"twin": dense + 0.5, "other": oth, "plain": aux(base_shape, dt)}
     ops, excluded = [], []
     nops = draw(st.sampled_from([1, 2, 2, 3, 3]))
     spatial = tuple(shape)
+    after_view = layout != "dense"
     for _ in range(nops):
         nd = p.ndim
         if nd not in (D + 1, D + 2):
             break
         is_batch = nd == D + 2
-        op = gen_op(draw, tuple(p.shape), is_batch, base_shape if is_batch == batch else ())
+        # a copy-like op follows an op that returned a view of its input (or a view-backed initial object) half of the time
+        fam = "copy" if after_view and draw(st.booleans()) else None
+        op = gen_op(draw, tuple(p.shape), is_batch, base_shape if is_batch == batch else (), fam)
         kid = known_exclusion(op, tuple(p.shape), is_batch)
         if kid is not None:
             excluded.append(kid)
@@ -1437,6 +1601,8 @@ def program_cases(draw):
         ops.append(op)
         if isinstance(r, list):
             r = r[op.get("pick", 0) % len(r)]
+        after_view = r.numel() > 0 and r.untyped_storage().data_ptr() == p.untyped_storage().data_ptr() and (
+            op["op"] not in COPY_OPS and not (op["op"] == "cast" and op["fn"] in CASTCOPY_FNS))
         p = r
         if op["op"] == "narrow" and op.get("style") != "torch":
             spatial = tuple(p.shape[-D:]) if p.ndim >= D else spatial
@@ -1597,9 +1763,53 @@ def survey_ops(batch: bool, nd: int, n0: int, c: int, sp) -> List[dict]:
     for fn in ("to", "to_kw", "to_device", "type"):
         for dt in ("float32", "float64", "int64"):
             ops.append({"op": "cast", "fn": fn, "dtype": dt})
-    ops += [{"op": "copy"}, {"op": "deepcopy"}, {"op": "pickle"}, {"op": "deepcopy", "via": "list"},
-            {"op": "pickle", "via": "proto2"}, {"op": "pickle", "via": "torch_save"}]
+    ops += copy_forms(casts=False)
     return ops
+
+
+def copy_forms(casts: bool = True) -> List[dict]:
+    """Every copy-like call form: copy.copy, _make_instance, deepcopy and pickle in all their variants (each pickle protocol,
+    torch.save, inside a container, the same object twice, the entries along dim 0 together) and, with casts, the tensor
+    methods that return a copy or an alias of the same type (clone, contiguous, detach, to / type with the same or another
+    floating point dtype, cpu)."""
+    ops: List[dict] = [{"op": "copy"}, {"op": "make_instance"}]
+    ops += [{"op": "deepcopy", "via": v, "pick": 1} for v in DEEPCOPY_VIAS]
+    ops += [{"op": "pickle", "via": v, "pick": 1} for v in PICKLE_VIAS]
+    if casts:
+        ops += [{"op": "cast", "fn": fn, "dtype": "float32"} for fn in ("clone", "torch_clone", "contiguous", "detach", "cpu", "double")]
+        ops += [{"op": "cast", "fn": fn, "dtype": dt} for fn in ("to", "to_kw", "type") for dt in ("float32", "float64")]
+    return ops
+
+
+def view_ops(base: dict) -> List[dict]:
+    """The single-op survey programs whose (picked) result, computed by plain torch on the base object, is a VIEW of the
+    input (shares its storage) that can still be an image (batch): ndim and spatial shape kept. One op per distinct
+    (call form, batch dim touched, result shape, storage offset, strides)."""
+    batch = base["kind"] in BATCH_KINDS
+    sp = list(base["shape"])
+    D = len(sp)
+    nd = D + (2 if batch else 1)
+    dt = _dt(base["dtype"])
+    ids = list(range(base["N"])) if batch else [base.get("id", 0)]
+    dense = torch.stack([item_data(j, base["C"], tuple(sp), dt) for j in ids], 0) if batch else item_data(ids[0], base["C"], tuple(sp), dt)
+    p = apply_layout(dense, (base.get("init") or {}).get("layout"))
+    env = {"twin": dense + 0.5, "other": dense[:1] + 0.25 if batch else dense + 0.25, "plain": aux(tuple(dense.shape), dt)}
+    out, seen = [], set()
+    for op in survey_ops(batch, nd, base["N"], base["C"], sp):
+        if op["op"] in COPY_OPS or op["op"] in ("inplace",) or known_exclusion(op, tuple(p.shape), batch):
+            continue
+        r = simulate(op, p, env, D)
+        if isinstance(r, list):
+            r = r[op.get("pick", 0) % len(r)] if r else None
+        if r is None or r.numel() == 0 or r.untyped_storage().data_ptr() != p.untyped_storage().data_ptr():
+            continue
+        if r.ndim not in (D + 1, D + 2) or tuple(r.shape[-D:]) != tuple(sp):
+            continue
+        key = (op_name(op), touches_dim0(op, nd), tuple(r.shape), r.storage_offset(), tuple(r.stride()))
+        if key not in seen:
+            seen.add(key)
+            out.append(op)
+    return out
 
 
 SURVEY_BASES = [
@@ -1655,9 +1865,32 @@ def survey_programs(batch: bool, nd: int, n0: int, sp) -> List[List[dict]]:
     ]
 
 
+# initial objects that wrap a view: contiguous at an offset, strided, transposed memory, cropped; some requiring grad
+SURVEY_VIEW_BASES = [
+    dict(SURVEY_BASES[0], N=4, init={"layout": "offset", "rg": False}),
+    dict(SURVEY_BASES[1], init={"layout": "offset", "rg": True}),
+    dict(SURVEY_BASES[3], init={"layout": "strided", "rg": False}),
+    dict(SURVEY_BASES[0], init={"layout": "tposed", "rg": False}),
+    dict(SURVEY_BASES[1], init={"layout": "crop", "rg": False}),
+    dict(SURVEY_BASES[0], init={"layout": "dense", "rg": True}),
+    dict(SURVEY_BASES[6], init={"layout": "offset", "rg": False}),
+    dict(SURVEY_BASES[7], init={"layout": "offset", "rg": True}),
+    dict(SURVEY_BASES[8], init={"layout": "crop", "rg": False}),
+    dict(SURVEY_BASES[7], init={"layout": "strided", "rg": False}),
+]
+# bases of the view x copy cross product
+CROSS_BASES = [dict(SURVEY_BASES[0], N=4), SURVEY_BASES[1], SURVEY_BASES[2], SURVEY_BASES[3], SURVEY_BASES[6], SURVEY_BASES[7],
+               SURVEY_BASES[9], SURVEY_VIEW_BASES[0], SURVEY_VIEW_BASES[1], SURVEY_VIEW_BASES[2], SURVEY_VIEW_BASES[6]]
+
+
 def survey_cases(tier: str = "quick"):
     out = []
-    for base in SURVEY_BASES:
+    # every op that returns a view of its input, followed by every copy-like op (quick tier: on 5 of the 11 objects)
+    for base in (CROSS_BASES if tier == "thorough" else [CROSS_BASES[i] for i in (0, 3, 4, 5, 8)]):
+        for vop in view_ops(base):
+            for cop in copy_forms():
+                out.append(dict(base, ops=[vop, cop]))
+    for base in SURVEY_BASES + SURVEY_VIEW_BASES:
         batch = base["kind"] in BATCH_KINDS
         sp = list(base["shape"])
         nd = len(sp) + (2 if batch else 1)
@@ -2008,9 +2241,12 @@ FACETS = [
                "align_corners, the same Grid object, an equal-valued distinct Grid, one attribute perturbed below the tolerance of "
                "Grid.__eq__; optional rotation), C in 1..3, spatial sizes 1..4, D in {2,3}; 1-3 ops drawn shape-aware from the grammar "
                "incl. append/from_images/batch() on intermediate results (simulated on the plain twin while drawing; ops plain torch "
-               "rejects are replaced by clone); plus a deterministic survey of every call form on 11 fixed objects (2 with shared-"
-               "geometry grid plans); non-trivial = N >= 2 and some op that reorders/selects/splits/joins along dim 0 returned a "
-               "deepali type",
+               "rejects are replaced by clone); the wrapped data is dense (50%) or a view of a larger buffer (offset 20%, strided / "
+               "transposed / cropped 10% each), 1 in 6 objects requires grad; after an op whose plain result is a view of its input "
+               "(and first, for view-backed objects) the next op is copy-like with probability 1/2; plus a deterministic survey of "
+               "every call form on 21 fixed objects (2 with shared-geometry grid plans, 10 view-backed / requiring grad) and the "
+               "cross product (every view-returning survey op) x (every copy-like call form) on 11 objects; non-trivial = N >= 2 and "
+               "some op that reorders/selects/splits/joins along dim 0 returned a deepali type",
           quick=2000, thorough=30000, shards=16, quick_shards=4, nontrivial=_nt_program,
           enumerate=survey_cases, exhaustive_tiers=("quick", "thorough")),
     Facet("constructors", run_constructors, strategy=constructor_cases,
